@@ -410,6 +410,12 @@ func (r *FnRun) callByContract(fr *Frame, st *State, ct *Contract, names []strin
 			r.note("ASSUMED before %s in %s: %s", what, shortName(r.name), cl.Src)
 		}
 	}
+	if fr.c != nil && fr.old != nil {
+		for _, gs := range fr.c.CallGhost[what] {
+			genv := &specEnv{st: st, old: fr.old, vars: vars, pkg: fnPkgPath(fr.fn), what: "callghost " + gs.Src, oldTop: fr.old.top}
+			r.ghostAssign(st, gs, genv)
+		}
+	}
 	pre := st.clone()
 	env := &specEnv{st: st, old: pre, vars: vars, pkg: ct.Pkg, what: ct.Name, oldTop: st.top}
 	for _, cl := range ct.Requires {
